@@ -1336,6 +1336,15 @@ TRUSTED = [
     "get_qobjevo / get_noisy_pulses / run_analytically / load_circuit / compile are used instead",
 ]
 ASSUMES = [
+    "the model describes /repo with fixes/C16-compiler-state.diff, fixes/C16-pass-copies.diff and fixes/C02-copy-cbits.diff applied; "
+    "the shipped code is the flag record `shipped_flags`, refuted in Props/C16.v (six *_refuted theorems, replayed from corpus/C16)",
+    "decisions on the design-phase observations: RelaxationNoise rewriting its own t1/t2 from a scalar to a constant list is idempotent "
+    "on the processor it is attached to and noise objects are not among the objects the property protects -> not a violation (compared "
+    "up to that normalisation); get_qobjevo(noisy=False) lengthening the stored coefficient arrays leaves the pulses unchanged as "
+    "functions of time -> not a violation; get_noisy_pulses(drift=True) returning a Drift without `label` is an interface "
+    "inconsistency, not a purity/repeatability matter",
+    "a load_circuit that raises after set_coeffs (e.g. the C13/C06 routing defect, KeyError on a non-adjacent coupling) leaves a "
+    "half-loaded processor; the fresh replay repeats such a load too, so only state carried ACROSS successful loads is reported",
     "histories of at most 8 calls on 2-3 qubit circuits (the theorems are for every length and every heap)",
     "pulses are compared as functions of time sampled at 17 interior points plus their noise elements, not as stored arrays "
     "(get_qobjevo lengthening the coefficient arrays is not a change)",
